@@ -88,19 +88,19 @@ def tolTwentieth (wl sum : Int) : Bool := decide (20 * (2 * wl - sum).natAbs ≤
 
 /-- `imbalance <= tolerance` is the only way to the `tolerance` exit. -/
 theorem split_exit_tol_aux (wt : Int → Int → Bool) (coord : Nat) (sum : Int) (items : List (Item α)) :
-    ∀ (fuel it : Nat) (mn mx : α) (prev : Option Nat) (out : SplitOut α),
-      split wt coord sum items fuel it mn mx prev = .ok out → out.exit = .tolerance →
+    ∀ (fuel it : Nat) (mn mx : α) (prev : Option Nat) (mv : Bool) (out : SplitOut α),
+      split wt coord sum items fuel it mn mx prev mv = .ok out → out.exit = .tolerance →
       wt out.weightLeft sum = true := by
   intro fuel
   induction fuel with
-  | zero => intro it mn mx prev out h; simp [split] at h
+  | zero => intro it mn mx prev mv out h; simp [split] at h
   | succ fuel ih =>
-    intro it mn mx prev out h he
+    intro it mn mx prev mv out h he
     simp only [split] at h
     split at h
     · split at h
       · cases h; cases he
-      · exact ih _ _ _ _ _ h he
+      · exact ih _ _ _ _ _ _ h he
     · next idx nd hn =>
       split at h
       · next e hex =>
@@ -119,7 +119,481 @@ theorem split_exit_tol_aux (wt : Int → Int → Bool) (coord : Nat) (sum : Int)
               · next hw => exact hw
               · cases hex
       · split at h
-        · exact ih _ _ _ _ _ h he
-        · exact ih _ _ _ _ _ h he
+        · exact ih _ _ _ _ _ _ h he
+        · exact ih _ _ _ _ _ _ h he
+
+/-! ## Exact arithmetic: the search on integer coordinates -/
+
+theorem int_lt (a b : Int) : Coord.lt a b = decide (a < b) := rfl
+theorem int_le (a b : Int) : Coord.le a b = decide (a ≤ b) := rfl
+theorem int_sub (a b : Int) : Coord.sub a b = a - b := rfl
+theorem int_add (a b : Int) : Coord.add a b = a + b := rfl
+theorem int_half (a : Int) : Coord.half a = a / 2 := rfl
+theorem int_zero : (Coord.zero : Int) = 0 := rfl
+theorem int_ltInf (a : Int) : Coord.ltInf a = true := rfl
+
+/-- Sum of the weights of a list of items. -/
+def sumW (l : List (Item Int)) : Int := (l.map (·.w)).sum
+
+/-- Weight strictly left of `v` / left of or at `v`, on axis `coord`. -/
+def Lw (items : List (Item Int)) (coord : Nat) (v : Int) : Int :=
+  sumW (items.filter (fun x => decide (x.key coord < v)))
+def Lle (items : List (Item Int)) (coord : Nat) (v : Int) : Int :=
+  sumW (items.filter (fun x => decide (x.key coord ≤ v)))
+
+theorem sumW_cons (x : Item Int) (xs : List (Item Int)) : sumW (x :: xs) = x.w + sumW xs := by
+  simp [sumW]
+
+theorem sumW_append (l r : List (Item Int)) : sumW (l ++ r) = sumW l + sumW r := by
+  simp [sumW]
+
+theorem sumW_filter_le (items : List (Item Int)) (p q : Item Int → Bool)
+    (hw : ∀ x ∈ items, 0 ≤ x.w) (h : ∀ x ∈ items, p x = true → q x = true) :
+    sumW (items.filter p) ≤ sumW (items.filter q) := by
+  induction items with
+  | nil => simp [sumW]
+  | cons x xs ih =>
+    have ih' := ih (fun y hy => hw y (List.mem_cons_of_mem _ hy))
+      (fun y hy => h y (List.mem_cons_of_mem _ hy))
+    have hx := hw x (List.mem_cons_self)
+    have hpq := h x (List.mem_cons_self)
+    simp only [List.filter_cons]
+    by_cases hp : p x = true
+    · simp only [hp, hpq hp, if_true, sumW_cons]; omega
+    · by_cases hq : q x = true
+      · simp only [hp, hq, if_true, sumW_cons]; simp; omega
+      · simp only [hp, hq]; simpa using ih'
+
+theorem sumW_filter_congr (items : List (Item Int)) (p q : Item Int → Bool)
+    (h : ∀ x ∈ items, p x = q x) : sumW (items.filter p) = sumW (items.filter q) := by
+  rw [List.filter_congr h]
+
+theorem sumW_filter_total (items : List (Item Int)) (p : Item Int → Bool)
+    (h : ∀ x ∈ items, p x = true) : sumW (items.filter p) = sumW items := by
+  rw [List.filter_eq_self.2 h]
+
+theorem sumW_filter_le_total (items : List (Item Int)) (p : Item Int → Bool)
+    (hw : ∀ x ∈ items, 0 ≤ x.w) : sumW (items.filter p) ≤ sumW items := by
+  have := sumW_filter_le items p (fun _ => true) hw (fun _ _ _ => rfl)
+  rwa [sumW_filter_total items (fun _ => true) (fun _ _ => rfl)] at this
+
+theorem sumW_perm {l l' : List (Item Int)} (h : l.Perm l') : sumW l = sumW l' := by
+  induction h with
+  | nil => rfl
+  | cons x _ ih => simp only [sumW_cons, ih]
+  | swap x y l => simp only [sumW_cons]; omega
+  | trans _ _ ih1 ih2 => rw [ih1, ih2]
+
+/-- What the fold has computed after a prefix `pre` of the items. -/
+structure ScanSpec (coord : Nat) (t : Int) (pre : List (Item Int)) (st : Scan Int) : Prop where
+  count : st.count = (pre.filter (fun x => decide (x.key coord < t))).length
+  wl : st.wl = Lw pre coord t
+  none_all : st.nearest = none → ∀ x ∈ pre, x.key coord < t
+  some_min : ∀ i d, st.nearest = some (i, d) → ∃ p, pre[i]? = some p ∧ t ≤ p.key coord ∧
+    d = p.key coord - t ∧ ∀ x ∈ pre, t ≤ x.key coord → p.key coord ≤ x.key coord
+
+theorem scanSpec_step (coord : Nat) (t : Int) (pre : List (Item Int)) (st : Scan Int) (x : Item Int)
+    (h : ScanSpec coord t pre st) :
+    ScanSpec coord t (pre ++ [x]) (scanStep coord t st (x, pre.length)) := by
+  obtain ⟨hc, hwl, hnone, hsome⟩ := h
+  unfold scanStep
+  simp only [int_lt, int_sub, int_zero, int_ltInf]
+  by_cases hx : x.key coord < t
+  · have hx' : x.key coord - t < 0 := by omega
+    simp only [hx', decide_true, if_true]
+    refine ⟨?_, ?_, ?_, ?_⟩
+    · simp [List.filter_append, hx, hc]
+    · simp [Lw, List.filter_append, hx, sumW_append, sumW_cons, hwl, sumW]
+    · intro hn y hy
+      rcases List.mem_append.1 hy with hy | hy
+      · exact hnone hn y hy
+      · simp at hy; subst hy; exact hx
+    · intro i d hid
+      obtain ⟨p, hp, h1, h2, h3⟩ := hsome i d hid
+      refine ⟨p, ?_, h1, h2, ?_⟩
+      · have : i < pre.length := by
+          rcases Nat.lt_or_ge i pre.length with h | h
+          · exact h
+          · rw [List.getElem?_eq_none h] at hp; cases hp
+        rw [List.getElem?_append_left this]; exact hp
+      · intro y hy hty
+        rcases List.mem_append.1 hy with hy | hy
+        · exact h3 y hy hty
+        · simp at hy; subst hy; omega
+  · have hx' : ¬ (x.key coord - t < 0) := by omega
+    simp only [hx', decide_false, Bool.false_eq_true, if_false]
+    have hfilt : (pre ++ [x]).filter (fun y => decide (y.key coord < t)) =
+        pre.filter (fun y => decide (y.key coord < t)) := by
+      simp [List.filter_append, hx]
+    have hxget : (pre ++ [x])[pre.length]? = some x := by simp
+    cases hn : st.nearest with
+    | none =>
+      simp only [if_true]
+      refine ⟨by simp [hfilt, hc], by simp [Lw, hfilt, hwl], (by intro h; cases h), ?_⟩
+      intro i d hid
+      simp only [Option.some.injEq, Prod.mk.injEq] at hid
+      obtain ⟨rfl, rfl⟩ := hid
+      refine ⟨x, hxget, by omega, rfl, ?_⟩
+      intro y hy hty
+      rcases List.mem_append.1 hy with hy | hy
+      · have := hnone hn y hy; omega
+      · simp at hy; subst hy; omega
+    | some pr =>
+      obtain ⟨j, nd⟩ := pr
+      obtain ⟨p, hp, h1, h2, h3⟩ := hsome j nd hn
+      simp only
+      by_cases hd : x.key coord - t < nd
+      · simp only [hd, decide_true, if_true]
+        refine ⟨by simp [hfilt, hc], by simp [Lw, hfilt, hwl], (by intro h; cases h), ?_⟩
+        intro i d hid
+        simp only [Option.some.injEq, Prod.mk.injEq] at hid
+        obtain ⟨rfl, rfl⟩ := hid
+        refine ⟨x, hxget, by omega, rfl, ?_⟩
+        intro y hy hty
+        rcases List.mem_append.1 hy with hy | hy
+        · have := h3 y hy hty; omega
+        · simp at hy; subst hy; omega
+      · simp only [hd, decide_false, Bool.false_eq_true, if_false]
+        refine ⟨by simp [hfilt, hc], by simp [Lw, hfilt, hwl], (by intro h; rw [hn] at h; cases h), ?_⟩
+        intro i d hid
+        rw [hn] at hid
+        simp only [Option.some.injEq, Prod.mk.injEq] at hid
+        obtain ⟨rfl, rfl⟩ := hid
+        refine ⟨p, ?_, h1, h2, ?_⟩
+        · have : j < pre.length := by
+            rcases Nat.lt_or_ge j pre.length with h | h
+            · exact h
+            · rw [List.getElem?_eq_none h] at hp; cases hp
+          rw [List.getElem?_append_left this]; exact hp
+        · intro y hy hty
+          rcases List.mem_append.1 hy with hy | hy
+          · exact h3 y hy hty
+          · simp at hy; subst hy; omega
+
+theorem scanSpec_fold (coord : Nat) (t : Int) : ∀ (l pre : List (Item Int)) (st : Scan Int),
+    ScanSpec coord t pre st →
+    ScanSpec coord t (pre ++ l) ((l.zipIdx pre.length).foldl (scanStep coord t) st) := by
+  intro l
+  induction l with
+  | nil => intro pre st h; simpa using h
+  | cons x xs ih =>
+    intro pre st h
+    simp only [List.zipIdx_cons, List.foldl_cons]
+    have := ih (pre ++ [x]) _ (scanSpec_step coord t pre st x h)
+    simpa using this
+
+/-- The fold of `par_rcb_split` in exact arithmetic: count and weight strictly left of the
+target, and the nearest item at or right of it (none iff there is none). -/
+theorem scan_spec (items : List (Item Int)) (coord : Nat) (t : Int) :
+    ScanSpec coord t items (scan items coord t) := by
+  have := scanSpec_fold coord t items [] ⟨0, 0, none⟩
+    ⟨rfl, rfl, (by intro _ x hx; cases hx), (by intro i d h; cases h)⟩
+  simpa [scan] using this
+
+/-- `k` lies in the search interval: `[mn, mx)` once `max` has been assigned, `[mn, mx]`
+while it still is the bounding-box bound. -/
+def InIv (mn mx : Int) (moved : Bool) (k : Int) : Prop :=
+  mn ≤ k ∧ (if moved then k < mx else k ≤ mx)
+
+/-- The final interval is resolved: the items inside it carry at most one distinct
+coordinate value. -/
+def Resolved (items : List (Item Int)) (coord : Nat) (mn mx : Int) (moved : Bool) : Prop :=
+  ∀ x ∈ items, ∀ y ∈ items, InIv mn mx moved (x.key coord) → InIv mn mx moved (y.key coord) →
+    x.key coord = y.key coord
+
+/-- Executable form of `InIv` / `Resolved` (for the non-vacuity examples and the driver). -/
+def inIvB (mn mx : Int) (moved : Bool) (k : Int) : Bool :=
+  decide (mn ≤ k) && (if moved then decide (k < mx) else decide (k ≤ mx))
+
+def resolvedB (items : List (Item Int)) (coord : Nat) (mn mx : Int) (moved : Bool) : Bool :=
+  items.all (fun x => items.all (fun y =>
+    !(inIvB mn mx moved (x.key coord)) || !(inIvB mn mx moved (y.key coord)) ||
+      decide (x.key coord = y.key coord)))
+
+theorem inIvB_iff (mn mx : Int) (moved : Bool) (k : Int) :
+    inIvB mn mx moved k = true ↔ InIv mn mx moved k := by
+  unfold inIvB InIv
+  cases moved <;> simp
+
+theorem resolvedB_iff (items : List (Item Int)) (coord : Nat) (mn mx : Int) (moved : Bool) :
+    resolvedB items coord mn mx moved = true ↔ Resolved items coord mn mx moved := by
+  unfold resolvedB Resolved
+  simp only [List.all_eq_true, Bool.or_eq_true, Bool.not_eq_true', decide_eq_true_eq]
+  constructor
+  · intro h x hx y hy hxi hyi
+    rcases h x hx y hy with (h1 | h1) | h1
+    · rw [(inIvB_iff ..).2 hxi] at h1; cases h1
+    · rw [(inIvB_iff ..).2 hyi] at h1; cases h1
+    · exact h1
+  · intro h x hx y hy
+    by_cases hxi : inIvB mn mx moved (x.key coord) = true
+    · by_cases hyi : inIvB mn mx moved (y.key coord) = true
+      · exact Or.inr (h x hx y hy ((inIvB_iff ..).1 hxi) ((inIvB_iff ..).1 hyi))
+      · exact Or.inl (Or.inr (by simpa using hyi))
+    · exact Or.inl (Or.inl (by simpa using hxi))
+
+/-- Run one search and test its result (for `decide`d examples). -/
+def checkSplit (wt : Int → Int → Bool) (coord : Nat) (items : List (Item Int)) (fuel : Nat)
+    (mn mx : Int) (P : SplitOut Int → Bool) : Bool :=
+  match split wt coord (sumW items) items fuel 0 mn mx none false with
+  | .ok out => P out
+  | _ => false
+
+/-- `split_invariant`: what the loop of `par_rcb_split` maintains about its interval
+(`W` = weight being split): the weight strictly left of `min` is at most the half, the
+weight left of `max` (strictly left once `max` was assigned) is at least the half. -/
+def Jinv (items : List (Item Int)) (coord : Nat) (W mn mx : Int) (moved : Bool) : Prop :=
+  mn ≤ mx ∧ 2 * Lw items coord mn ≤ W ∧
+    (if moved then W ≤ 2 * Lw items coord mx else W ≤ 2 * Lle items coord mx)
+
+/-- What a successful search returns (exact arithmetic). -/
+def SplitFacts (G : Prop) (items : List (Item Int)) (coord : Nat) (sum : Int) (out : SplitOut Int) :
+    Prop :=
+  (G → Jinv items coord sum out.lastMin out.lastMax out.maxMoved) ∧
+  ((out.exit = .allLeft ∧ out.left = items ∧ out.right = [] ∧ out.weightLeft = sum ∧
+      (∀ x ∈ items, x.key coord < (out.lastMin + out.lastMax) / 2)) ∨
+   (out.exit ≠ .allLeft ∧ ∃ p ∈ items, (out.lastMin + out.lastMax) / 2 ≤ p.key coord ∧
+      (∀ x ∈ items, (out.lastMin + out.lastMax) / 2 ≤ x.key coord → p.key coord ≤ x.key coord) ∧
+      (out.left ++ out.right).Perm items ∧
+      (∀ x ∈ out.left, x.key coord < p.key coord) ∧
+      (∀ x ∈ out.right, ¬ x.key coord < p.key coord) ∧
+      out.weightLeft = Lw items coord ((out.lastMin + out.lastMax) / 2)))
+
+theorem split_facts (G : Prop) (wt : Int → Int → Bool) (coord : Nat) (sum : Int)
+    (items : List (Item Int)) (hw : ∀ x ∈ items, 0 ≤ x.w) (hsum : sum = sumW items) :
+    ∀ (fuel it : Nat) (mn mx : Int) (prev : Option Nat) (mv : Bool) (out : SplitOut Int),
+      (G → Jinv items coord sum mn mx mv) →
+      split wt coord sum items fuel it mn mx prev mv = .ok out →
+      SplitFacts G items coord sum out := by
+  intro fuel
+  induction fuel with
+  | zero => intro it mn mx prev mv out _ h; simp [split] at h
+  | succ fuel ih =>
+    intro it mn mx prev mv out hJ h
+    simp only [split, int_add, int_half] at h
+    have hs := scan_spec items coord ((mn + mx) / 2)
+    split at h
+    · next hn =>
+      have hall := hs.none_all hn
+      split at h
+      · cases h
+        exact ⟨hJ, Or.inl ⟨rfl, rfl, rfl, rfl, hall⟩⟩
+      · refine ih _ _ _ _ _ _ (fun g => ?_) h
+        obtain ⟨hJ1, hJ2, hJ3⟩ := hJ g
+        refine ⟨by omega, hJ2, ?_⟩
+        simp only [if_true]
+        have : Lw items coord ((mn + mx) / 2) = sumW items :=
+          sumW_filter_total items _ (by intro x hx; simpa using hall x hx)
+        have h0 : 0 ≤ sumW items := by
+          have := sumW_filter_le_total items (fun _ => false) hw
+          rw [List.filter_eq_nil_iff.2 (by intro x _; simp)] at this
+          simpa [sumW] using this
+        omega
+    · next idx nd hn =>
+      obtain ⟨p, hp, hpt, _, hpmin⟩ := hs.some_min idx nd hn
+      have hpm : p ∈ items := List.mem_iff_getElem?.2 ⟨idx, hp⟩
+      split at h
+      · next e he =>
+        obtain ⟨l', r', e1, hperm, hl, hr, _⟩ := reorderSplit_spec_aux items idx coord p hp
+          (by
+            intro x _
+            simp only [int_le, int_lt]
+            by_cases hc : p.key coord ≤ x.key coord <;> simp [hc] <;> omega)
+          (by simp [int_lt])
+        rw [e1] at h
+        cases h
+        refine ⟨hJ, Or.inr ⟨?_, p, hpm, hpt, hpmin, hperm, ?_, ?_, hs.wl⟩⟩
+        · simp only
+          intro hc
+          subst hc
+          split at he
+          · cases he
+          · split at he
+            · cases he
+            · split at he
+              · cases he
+              · cases he
+        · intro x hx; simpa [int_lt] using hl x hx
+        · intro x hx; simpa [int_lt] using hr x hx
+      · split at h
+        · next hlt =>
+          refine ih _ _ _ _ _ _ (fun g => ?_) h
+          obtain ⟨hJ1, hJ2, hJ3⟩ := hJ g
+          refine ⟨by omega, ?_, hJ3⟩
+          rw [hs.wl] at hlt
+          omega
+        · next hlt =>
+          refine ih _ _ _ _ _ _ (fun g => ?_) h
+          obtain ⟨hJ1, hJ2, hJ3⟩ := hJ g
+          refine ⟨by omega, hJ2, ?_⟩
+          rw [hs.wl] at hlt
+          simp only [if_true]
+          omega
+
+/-- The low side of a successful search weighs `Lw` of the cut value. -/
+theorem left_weight (items l r : List (Item Int)) (coord : Nat) (v : Int)
+    (hperm : (l ++ r).Perm items) (hl : ∀ x ∈ l, x.key coord < v) (hr : ∀ x ∈ r, ¬ x.key coord < v) :
+    sumW l = Lw items coord v := by
+  unfold Lw
+  rw [← sumW_perm (hperm.filter _), List.filter_append,
+    List.filter_eq_self.2 (by intro x hx; simpa using hl x hx),
+    List.filter_eq_nil_iff.2 (by intro x hx; simpa using hr x hx), List.append_nil]
+
+/-- Weight reported = weight of the low side actually returned (exact arithmetic). -/
+theorem split_reported_weight_aux (wt : Int → Int → Bool) (coord : Nat) (items : List (Item Int))
+    (hw : ∀ x ∈ items, 0 ≤ x.w) (fuel : Nat) (mn mx : Int) (out : SplitOut Int)
+    (h : split wt coord (sumW items) items fuel 0 mn mx none false = .ok out) :
+    out.weightLeft = sumW out.left ∧ sumW items - out.weightLeft = sumW out.right := by
+  obtain ⟨_, hf⟩ := split_facts False wt coord _ items hw rfl fuel 0 mn mx none false out
+    (fun g => g.elim) h
+  rcases hf with ⟨_, h1, h2, h3, _⟩ | ⟨_, p, _, hpt, hpmin, hperm, hl, hr, hwl⟩
+  · rw [h1, h2, h3]; simp [sumW]
+  · have e1 := left_weight items out.left out.right coord _ hperm hl hr
+    have e2 : Lw items coord ((out.lastMin + out.lastMax) / 2) = Lw items coord (p.key coord) := by
+      apply sumW_filter_congr
+      intro x hx
+      by_cases hc : x.key coord < (out.lastMin + out.lastMax) / 2
+      · have : x.key coord < p.key coord := by omega
+        simp [hc, this]
+      · have := hpmin x hx (by omega)
+        have h2 : ¬ x.key coord < p.key coord := by omega
+        simp [hc, h2]
+    have e3 := sumW_perm hperm
+    rw [sumW_append] at e3
+    rw [hwl, e2, ← e1]
+    exact ⟨rfl, by omega⟩
+
+/-- Low-side weights of the achievable cuts of a list of items (cf. `achievable`). -/
+def achievableItems (items : List (Item Int)) (coord : Nat) : List Int :=
+  sumW items :: items.map (fun x => Lw items coord (x.key coord))
+
+theorem Lw_mono (items : List (Item Int)) (coord : Nat) (hw : ∀ x ∈ items, 0 ≤ x.w) (u v : Int)
+    (h : u ≤ v) : Lw items coord u ≤ Lw items coord v :=
+  sumW_filter_le items _ _ hw (by intro x _ hx; simp at hx ⊢; omega)
+
+/-- **The resolved-interval lemma.**  If the search starts from an interval that brackets
+the half (`Jinv`) and the items inside its FINAL interval carry at most one distinct
+coordinate, then – whichever exit was taken – the low side returned is one of the
+achievable weights adjacent to the half. -/
+theorem split_exit_resolved_aux (wt : Int → Int → Bool) (coord : Nat) (items : List (Item Int))
+    (hw : ∀ x ∈ items, 0 ≤ x.w) (fuel : Nat) (mn mx : Int) (out : SplitOut Int)
+    (hJ : Jinv items coord (sumW items) mn mx false)
+    (h : split wt coord (sumW items) items fuel 0 mn mx none false = .ok out)
+    (hres : Resolved items coord out.lastMin out.lastMax out.maxMoved) :
+    bracketsHalf (achievableItems items coord) (sumW out.left) (sumW items) = true := by
+  obtain ⟨hJ', hf⟩ := split_facts True wt coord _ items hw rfl fuel 0 mn mx none false out
+    (fun _ => hJ) h
+  obtain ⟨hJ1, hJ2, hJ3⟩ := hJ' trivial
+  have hW0 : 0 ≤ sumW items := by
+    have := sumW_filter_le_total items (fun _ => false) hw
+    rw [List.filter_eq_nil_iff.2 (by intro x _; simp)] at this
+    simpa [sumW] using this
+  have ht1 : out.lastMin ≤ (out.lastMin + out.lastMax) / 2 := by omega
+  have ht2 : (out.lastMin + out.lastMax) / 2 ≤ out.lastMax := by omega
+  -- a key `v` with more than half strictly left of it is impossible below the target
+  have hlowkey : ∀ y ∈ items, y.key coord < (out.lastMin + out.lastMax) / 2 →
+      2 * Lw items coord (y.key coord) ≤ sumW items := by
+    intro y hy hyt
+    by_cases hmn : out.lastMin ≤ y.key coord
+    · have hyin : InIv out.lastMin out.lastMax out.maxMoved (y.key coord) := by
+        refine ⟨hmn, ?_⟩
+        split <;> omega
+      have : Lw items coord (y.key coord) = Lw items coord out.lastMin := by
+        apply sumW_filter_congr
+        intro x hx
+        by_cases hc : x.key coord < out.lastMin
+        · have : x.key coord < y.key coord := by omega
+          simp [hc, this]
+        · by_cases hc2 : x.key coord < y.key coord
+          · have hxin : InIv out.lastMin out.lastMax out.maxMoved (x.key coord) := by
+              refine ⟨by omega, ?_⟩
+              split <;> omega
+            have := hres x hx y hy hxin hyin
+            omega
+          · simp [hc, hc2]
+      omega
+    · have := Lw_mono items coord hw (y.key coord) out.lastMin (by omega)
+      omega
+  unfold bracketsHalf
+  rw [Bool.and_eq_true, List.contains_iff_mem, List.all_eq_true]
+  rcases hf with ⟨_, h1, h2, h3, hall⟩ | ⟨_, p, hpm, hpt, hpmin, hperm, hl, hr, hwl⟩
+  · -- everything on the low side
+    rw [h1]
+    refine ⟨by simp [achievableItems], ?_⟩
+    intro a ha
+    simp only [achievableItems, List.mem_cons, List.mem_map] at ha
+    rcases ha with rfl | ⟨y, hy, rfl⟩
+    · simp
+    · have h1 : Lw items coord (y.key coord) ≤ sumW items :=
+        sumW_filter_le_total items (fun x => decide (x.key coord < y.key coord)) hw
+      have h2 := hlowkey y hy (hall y hy)
+      simp only [Bool.and_eq_true, Bool.not_eq_true', Bool.and_eq_false_iff]
+      simp only [decide_eq_false_iff_not]
+      constructor <;> omega
+  · have e1 := left_weight items out.left out.right coord _ hperm hl hr
+    rw [e1]
+    refine ⟨by
+      simp only [achievableItems, List.mem_cons, List.mem_map]
+      exact Or.inr ⟨p, hpm, rfl⟩, ?_⟩
+    intro a ha
+    simp only [achievableItems, List.mem_cons, List.mem_map] at ha
+    simp only [Bool.and_eq_true, Bool.not_eq_true', Bool.and_eq_false_iff]
+    simp only [decide_eq_false_iff_not]
+    have hpW : Lw items coord (p.key coord) ≤ sumW items :=
+      sumW_filter_le_total items (fun x => decide (x.key coord < p.key coord)) hw
+    rcases ha with rfl | ⟨y, hy, rfl⟩
+    · constructor <;> omega
+    · constructor
+      · -- an achievable weight above the cut and strictly below the half
+        by_cases hlt : Lw items coord (p.key coord) < Lw items coord (y.key coord)
+        · right
+          have hyp : p.key coord < y.key coord := by
+            rcases Int.lt_or_le (p.key coord) (y.key coord) with h | h
+            · exact h
+            · have := Lw_mono items coord hw _ _ h; omega
+          have hpin1 : out.lastMin ≤ p.key coord := by omega
+          -- `y` is outside the interval (else two distinct values inside)
+          by_cases hyin : InIv out.lastMin out.lastMax out.maxMoved (y.key coord)
+          · have hpin : InIv out.lastMin out.lastMax out.maxMoved (p.key coord) := by
+              refine ⟨hpin1, ?_⟩
+              have := hyin.2
+              split at this <;> split <;> simp_all <;> omega
+            have := hres p hpm y hy hpin hyin
+            omega
+          · cases hmv : out.maxMoved with
+            | true =>
+              rw [hmv] at hJ3 hyin
+              simp only [InIv, if_true] at hyin hJ3
+              have : out.lastMax ≤ y.key coord := by
+                rcases Int.lt_or_le (y.key coord) out.lastMax with h | h
+                · exact absurd ⟨by omega, h⟩ hyin
+                · exact h
+              have := Lw_mono items coord hw _ _ this
+              omega
+            | false =>
+              rw [hmv] at hJ3 hyin
+              simp only [InIv, Bool.false_eq_true, if_false] at hyin hJ3
+              have hgt : out.lastMax < y.key coord := by
+                rcases Int.lt_or_le out.lastMax (y.key coord) with h | h
+                · exact h
+                · exact absurd ⟨by omega, h⟩ hyin
+              have : Lle items coord out.lastMax ≤ Lw items coord (y.key coord) :=
+                sumW_filter_le items _ _ hw (by intro x _ hx; simp at hx ⊢; omega)
+              omega
+        · left; exact hlt
+      · -- an achievable weight below the cut and strictly above the half
+        by_cases hlt : Lw items coord (y.key coord) < Lw items coord (p.key coord)
+        · right
+          have hyp : y.key coord < p.key coord := by
+            rcases Int.lt_or_le (y.key coord) (p.key coord) with h | h
+            · exact h
+            · have := Lw_mono items coord hw _ _ h; omega
+          have hyt : y.key coord < (out.lastMin + out.lastMax) / 2 := by
+            rcases Int.lt_or_le (y.key coord) ((out.lastMin + out.lastMax) / 2) with h | h
+            · exact h
+            · have := hpmin y hy h; omega
+          have := hlowkey y hy hyt
+          omega
+        · left; exact hlt
 
 end Coupe.Rcb
